@@ -28,6 +28,16 @@ def generate(rng, tier):
     n = 6000 if tier == "quick" else 200000
     for _ in range(n):
         g["programs"].append("ED " + " ".join(G.program(rng)))
+    # "an Encoder" includes one that was used before: a path abandoned with operands still pending (no Z, no Bytes),
+    # sometimes after a protocol violation, then Reset and a well-formed program
+    g["reused-encoder"] = []
+    for i in range(300 if tier == "quick" else 6000):
+        t = ["SP", "0", G.fl(rng), G.fl(rng)]
+        for _ in range(1 + rng.below(5)):
+            t += G.draw_op(rng, rng.choice("LlTtQqSsCc"))
+        if i % 4 == 0:
+            t += ["SP", "0", G.fl(rng), G.fl(rng)]
+        g["reused-encoder"].append("ED " + " ".join(t + G.program(rng, reset=True)))
     n = 3000 if tier == "quick" else 100000
     for _ in range(n):
         s = G.stream(rng, well_formed=True)
